@@ -25,7 +25,7 @@ from ..core.refsolver import BruteSolver, NativeError
 
 # command alphabet (JSON-able tuples)
 FULL = [("assert", "a"), ("assert", "b"), ("soft", "A", "a", 1), ("soft", "B", "b", 2), ("soft", "A", "b", 3),
-        ("push", 0), ("push", 1), ("push", 2), ("pop", 0), ("pop", 1), ("pop", 2), ("reset",), ("check",),
+        ("push", 0), ("push", 1), ("push", 2), ("push", 3), ("pop", 0), ("pop", 1), ("pop", 2), ("pop", 3), ("reset",), ("check",),
         ("max", "x", False), ("min", "y", True), ("minmax", ("x", "y"), False), ("maxmin", ("x", "y"), True)]
 REDUCED = [("assert", "a"), ("soft", "A", "b", 2), ("push", 1), ("pop", 1), ("reset",)]
 MEDIUM = [("assert", "a"), ("assert", "b"), ("soft", "A", "a", 1), ("soft", "B", "b", 2), ("push", 1), ("push", 2),
@@ -281,12 +281,12 @@ def run_script_shard(args):
 from pysmt.typing import INT as INT_T  # noqa: E402
 
 FORMS = ("a", "na", "b")
-SOLVER_EVENTS = ([("add", f) for f in FORMS] + [("push", 1), ("push", 2), ("pop", 1), ("pop", 2), ("pop", 0),
+SOLVER_EVENTS = ([("add", f) for f in FORMS] + [("push", 1), ("push", 2), ("push", 3), ("pop", 1), ("pop", 2), ("pop", 3), ("pop", 0),
                  ("push", 0), ("reset",),
                  ("solve",), ("solve_lit", "nb"), ("solve_nonlit", "a|b"), ("is_sat", "b"), ("is_valid", "a"),
                  ("is_unsat", "na"), ("read",), ("is_sat_bad", "type"), ("is_sat_bad", "refused"),
                  ("is_sat_bad", "unknown"), ("add_bad", "refused")])
-SOLVER_EVENTS_QUICK = ([("add", "a"), ("add", "na"), ("push", 1), ("push", 2), ("pop", 1), ("pop", 2), ("pop", 0),
+SOLVER_EVENTS_QUICK = ([("add", "a"), ("add", "na"), ("push", 1), ("push", 2), ("push", 3), ("pop", 1), ("pop", 2), ("pop", 3), ("pop", 0),
                         ("push", 0), ("reset",),
                         ("solve",), ("solve_nonlit", "a|b"), ("is_sat", "b"), ("is_valid", "a"), ("read",), ("is_sat_bad", "type"),
                         ("is_sat_bad", "refused"), ("is_sat_bad", "unknown")])
